@@ -27,7 +27,7 @@ def mc(prop, tier):
              ("MC_BitField", "MC_BitField_w8_design.cfg", _MUT)]
     if prop == "C14":
         # the same model: its raw constructors enumerate every garbage pattern beyond the contents
-        return [("MC_BitField", "MC_BitField_w4.cfg", _MUT)] if q else \
+        return [("MC_BitField", "MC_BitField_w4_c14.cfg", _MUT)] if q else \
             [("MC_BitField", "MC_BitField_w4_heavy.cfg", _MUT), ("MC_BitField", "MC_BitField_w8_design.cfg", _MUT)]
     if prop == "C10":
         # CopyDesign = Copy on W = 8 (per-branch coverage) + apply/reset/chunks/unaligned transcriptions on W = 8
@@ -63,7 +63,7 @@ def episodes(prop, tier, seed):
         out["bulk"] = (eps, "verif")
         out["bulk-release"] = (g.bulk_episodes(seed + 1, 500 if q else 6000) + g.recipes(), "release")
     if prop == "C14":
-        out["dirty"] = (g.dirty_episodes(seed, 1800 if q else 24000), "verif")
+        out["dirty"] = (g.dirty_episodes(seed, 1500 if q else 24000), "verif")
         if not q:
             out["dirty-release"] = (g.dirty_episodes(seed + 1, 6000), "release")
     if prop == "C11":
